@@ -31,6 +31,19 @@ def analyse(ctx, cfg):
                 changed = True
         if not changed:
             break
+    # requirements are only discharged at analysed call sites: closures (called by iterator adaptors) and
+    # functions without a direct analysed caller keep their constant needs as open sites of their own
+    called = set()
+    for n in names:
+        for b in P.runs[n].blocks:
+            t = b.get("term")
+            if t and t.get("k") == "Call":
+                called.add(mirflow.norm(t.get("resolved") or t.get("callee")) or "")
+    for n in names:
+        if "{closure" in n or n not in called:
+            for s_ in P.runs[n].sites.values():
+                if s_.req and not s_.proved:
+                    s_.req = None
     out = {n: P.runs[n] for n in names}
     _cache[id(F)] = (P, out)
     return P, out
